@@ -414,6 +414,7 @@ func TestVerifC12(t *testing.T) {
 	m := r.Pick(6000, 2000000)
 	for i := 0; i < m; i++ {
 		a, b := vRandomRA(rr), vRandomRA(rr)
+		oneUnit := false
 		if rr.Intn(3) == 0 {
 			// mostly-equal pair: perturb a copy
 			b2, err := vRoundTrip(a)
@@ -428,11 +429,50 @@ func TestVerifC12(t *testing.T) {
 					if len(b.Options) > 0 {
 						b.Options = b.Options[:len(b.Options)-1]
 					}
+				case 3:
+					// the smallest difference the wire can carry, in one field: one second
+					// in an option's lifetime, one millisecond in a header timer, one in
+					// the MTU - as much an inconsistency as a large one
+					d := time.Duration(1 - 2*rr.Intn(2))
+					k := rr.Intn(len(b.Options) + 1)
+					if k == len(b.Options) {
+						if rr.Intn(2) == 0 && b.ReachableTime > 0 {
+							b.ReachableTime += d * time.Millisecond
+						} else if b.RetransmitTimer > 0 {
+							b.RetransmitTimer += d * time.Millisecond
+						}
+						break
+					}
+					adj := func(v *time.Duration) {
+						if *v != ndp.Infinity && *v+d*time.Second >= 0 {
+							*v += d * time.Second
+						}
+					}
+					switch o := b.Options[k].(type) {
+					case *ndp.PrefixInformation:
+						if rr.Intn(2) == 0 {
+							adj(&o.ValidLifetime)
+						} else {
+							adj(&o.PreferredLifetime)
+						}
+					case *ndp.RouteInformation:
+						adj(&o.RouteLifetime)
+					case *ndp.RecursiveDNSServer:
+						adj(&o.Lifetime)
+					case *ndp.DNSSearchList:
+						adj(&o.Lifetime)
+					case *ndp.MTU:
+						o.MTU = uint32(int64(o.MTU) + int64(d))
+					}
+					oneUnit = true
 				}
 			}
 		}
 		id := fmt.Sprintf("rand/%d", i)
 		if r.Mine(id) {
+			if oneUnit {
+				r.Count("pairs_differing_by_one_unit", 1)
+			}
 			check(id, a, b)
 			check(id+"/swapped", b, a)
 		}
